@@ -126,6 +126,8 @@ func Load(repoDir, tags string, env []string) *Program {
 		}
 	}
 	p.collectSrcFns()
+	inheritProg = p
+	inheritMemo = map[*ssa.Function]*LockInfo{}
 	return p
 }
 
